@@ -1,5 +1,6 @@
 import CircusProofs.Props.C10
 import CircusProofs.Props.C15
+import CircusProofs.Core.OptionsCmd
 /-!
 # C11 — a request refused as invalid or conflicting changes nothing
 
@@ -30,6 +31,11 @@ Converse direction (whatever the reason, an error of the class means no effect):
 Frames: `C11_invalid_json_only_replies`, `C11_not_an_object_only_replies`,
 `C11_unknown_command_only_replies`, `C11_bad_properties_only_replies`, `C11_refused_only_replies`,
 `C11_refused_no_signal`, `C11_message_*_only_replies`, `C11_message_refusal_only_replies`.
+
+Observability of "the options exactly as they were": `C11_options_reply`, `C11_get_reply` (the answers of `options` /
+`get` are computed from the watcher's record alone), `C11_options_function_of_records`, `C11_refusal_same_options`,
+`C11_sameDaemon_same_options` (after a refusal every `options` / `get` request is answered as before),
+`C11_get_unknown_key_noop`, `C11_readonly_options_noop`, `C11_message_readonly_options_only_replies`.
 
 Known finding F4 (kept, not repaired): `set` applies its options one after the other at *execution*
 time; an option that passes `validate_option` but is refused by `Watcher.set_opt` (e.g. an unknown
@@ -2106,6 +2112,11 @@ theorem C11.execReadOnly_errNoop (c : String) (hc : c ≠ "stats") (props : JVal
   · cases he
   · rfl
   · exact (hc rfl).elim
+  · exact execOptions_state props s
+  · exact execGet_state props s
+  · rfl
+  · rfl
+  · rfl
   · cases he
 
 theorem C11.veq_readonly_all (c : String)
@@ -2546,6 +2557,125 @@ theorem C11_message_refusal_only_replies (cid : Option String) (msg : Option JVa
   simp only at he hs
   rw [he, hs]
 
+/-! ## 9. `options` / `get`: "the options exactly as they were" is observable
+
+The read-only commands `options` and `get` answer from the arbiter's name dict and the watcher's record and
+from nothing else; so a request that leaves the state as it was (`C11_refusal_noop`) or the daemon as it was
+(`sameDaemon`) is followed by the same `options` / `get` answers as it was preceded by. -/
+
+/-- **`options` reads the watcher record**: for a name that designates a registered watcher (in whatever letter
+    case), `validate`+`execute` of `options` answer `ok` with the body `optionsBody w` computed from that watcher's
+    record `w` alone (numprocesses, warmup_delay, graceful_timeout, stop_signal, stop_children, priority, respawn,
+    max_retry, max_age, singleton, on_demand, send_hup), and the state is identical — whatever the exclusive slot
+    holds, whatever is in flight. -/
+theorem C11_options_reply (props : JVal) (s : State) (n : String) (u : Nat)
+    (hn : props.get? "name" = some (.str n)) (hu : s.a.names.lookup (pyLower n) = some u) :
+    validateExecute "options" props s = (.ok (.value (optionsBody (getW u s).1)), s) := by
+  rw [validateExecute_options props s (has_of_get_some hn)]
+  exact execOptions_known props s n u hn hu
+
+/-- **`get` reads the watcher record**: for a registered watcher and the `keys` given, the answer is `getBody w keys`
+    — the named options out of the same record when every key is an option name, MessageError when one is not,
+    TypeError when `keys` is not iterable — and the state is identical. -/
+theorem C11_get_reply (props : JVal) (s : State) (n : String) (u : Nat) (keys : JVal)
+    (hn : props.get? "name" = some (.str n)) (hk : props.get? "keys" = some keys)
+    (hu : s.a.names.lookup (pyLower n) = some u) :
+    validateExecute "get" props s = (getBody (getW u s).1 keys, s) := by
+  rw [validateExecute_get props s (has_of_get_some hn) (has_of_get_some hk)]
+  rw [execGet_known props s n u hn hu, hk]
+  rfl
+
+/-- **a key that is no option name**: `get` with a list of keys one of which is not in `Watcher.optnames` (whatever its
+    type) is refused with MessageError and nothing changes -/
+theorem C11_get_unknown_key_noop (props : JVal) (s : State) (n : String) (u : Nat) (xs : List JVal) (x : JVal)
+    (hn : props.get? "name" = some (.str n)) (hk : props.get? "keys" = some (.arr xs))
+    (hu : s.a.names.lookup (pyLower n) = some u) (hx : x ∈ xs) (hbad : isOptName x = false) :
+    validateExecute "get" props s = (.error .message, s) := by
+  rw [C11_get_reply props s n u (.arr xs) hn hk hu]
+  have : xs.all isOptName = false := by
+    rw [List.all_eq_false]; exact ⟨x, hx, by simp [hbad]⟩
+  simp only [getBody, getKeyItems, this]
+  rfl
+
+/-- **the `options` / `get` answers are a function of the name dict and the watcher records only**: two states that
+    agree on these two components give the same answers to every `options` and every `get` request -/
+theorem C11_options_function_of_records (props : JVal) (s s' : State)
+    (hnames : s'.a.names = s.a.names) (hws : s'.ws = s.ws) :
+    (validateExecute "options" props s').1 = (validateExecute "options" props s).1 ∧
+    (validateExecute "get" props s').1 = (validateExecute "get" props s).1 := by
+  rw [validateExecute_options_eq, validateExecute_options_eq, validateExecute_get_eq, validateExecute_get_eq]
+  simp only [execOptions_fst_congr props s s' hnames hws, execGet_fst_congr props s s' hnames hws, and_self]
+
+/-- **after a refused request the options read as before**: for every registered command, if the request is answered
+    with a validation-class error, then every `options` and every `get` request is answered afterwards exactly as it
+    would have been answered before -/
+theorem C11_refusal_same_options (cmd : String) (hc : commandNames.contains cmd = true) (props : JVal) (s : State)
+    (e : Exc) (h : (validateExecute cmd props s).1 = .error e) (hr : e.isRefusal = true) (q : JVal) :
+    validateExecute "options" q (validateExecute cmd props s).2 = validateExecute "options" q s ∧
+    validateExecute "get" q (validateExecute cmd props s).2 = validateExecute "get" q s := by
+  rw [C11_refusal_noop cmd hc props s e h hr]
+  exact ⟨rfl, rfl⟩
+
+/-- … and at the level of frames: a daemon that is `sameDaemon` as before (what every refused frame leaves,
+    `C11_message_refusal_only_replies`) answers every `options` / `get` request as before -/
+theorem C11_sameDaemon_same_options {s s' : State} (h : sameDaemon s s') (q : JVal) :
+    (validateExecute "options" q s').1 = (validateExecute "options" q s).1 ∧
+    (validateExecute "get" q s').1 = (validateExecute "get" q s).1 := by
+  obtain ⟨_, hnames, hws, _, _⟩ := C11_sameDaemon_views h
+  exact C11_options_function_of_records q s s' hnames hws
+
+/-- the five commands added to the read-only executor change nothing at all, whatever they answer -/
+theorem C11_readonly_options_noop (cmd : String)
+    (hc : cmd ∈ ["options", "get", "globaloptions", "dstats", "listsockets"]) (props : JVal) (s : State) :
+    (validateExecute cmd props s).2 = s := by
+  by_cases hr : reqOk cmd props
+  swap
+  · rw [veq_req_fail _ _ _ hr]
+  simp only [List.mem_cons, List.mem_nil_iff, or_false] at hc
+  rcases hc with rfl | rfl | rfl | rfl | rfl
+  · rw [veq_readonly_all _ (by decide) props s hr]; exact execOptions_state props s
+  · rw [veq_readonly_all _ (by decide) props s hr]; exact execGet_state props s
+  · rw [veq_readonly_all _ (by decide) props s hr]; rfl
+  · rw [veq_readonly_all _ (by decide) props s hr]; rfl
+  · rw [veq_readonly_all _ (by decide) props s hr]; rfl
+
+theorem C11.readonly_options_ne_future (cmd : String)
+    (hc : cmd ∈ ["options", "get", "globaloptions", "dstats", "listsockets"]) (props : JVal) (s : State)
+    (tid : Nat) (x : String) : (validateExecute cmd props s).1 ≠ .ok (.future tid x) := by
+  by_cases hr : reqOk cmd props
+  swap
+  · rw [veq_req_fail _ _ _ hr]; intro h; cases h
+  simp only [List.mem_cons, List.mem_nil_iff, or_false] at hc
+  rcases hc with rfl | rfl | rfl | rfl | rfl
+  · rw [veq_readonly_all _ (by decide) props s hr]; exact execOptions_ne_future props s tid x
+  · rw [veq_readonly_all _ (by decide) props s hr]; exact execGet_ne_future props s tid x
+  · rw [veq_readonly_all _ (by decide) props s hr]; exact globalOptionsBody_ne_future props tid x
+  · rw [veq_readonly_all _ (by decide) props s hr]; intro h; cases h
+  · rw [veq_readonly_all _ (by decide) props s hr]; intro h; cases h
+
+/-- … **as frames**: a frame that carries `options`, `get`, `globaloptions`, `dstats` or `listsockets` (command name in
+    any letter case) — whatever its properties, whatever it is answered, whatever is in flight — leaves the daemon
+    exactly as it was, up to the one reply -/
+theorem C11_message_readonly_options_only_replies (cid : Option String) (j : JVal) (s : State) (name : String)
+    (hc : j.get? "command" = some (.str name))
+    (hcmd : pyLower name ∈ ["options", "get", "globaloptions", "dstats", "listsockets"]) :
+    sameDaemon s (handleMessage cid (some j) s).2 := by
+  have h1 := C11_readonly_options_noop (pyLower name) hcmd (propsOf j) (clearDone s).2
+  have h2 := readonly_options_ne_future (pyLower name) hcmd (propsOf j) (clearDone s).2
+  generalize hve : validateExecute (pyLower name) (propsOf j) (clearDone s).2 = ve at h1 h2
+  obtain ⟨r, s1⟩ := ve
+  simp only at h1 h2
+  subst h1
+  apply C11_quiet_only_replies cid j s name hc r hve
+  cases r with
+  | error e => trivial
+  | ok res =>
+    cases res with
+    | future tid x => exact absurd rfl (h2 tid x)
+    | value b => trivial
+    | statusPayload st => trivial
+    | unmodelled => trivial
+
 /-! ## non-vacuity: the hypotheses instantiated on concrete states and requests -/
 
 /-- three watchers (`a` stopped, `B` active with two workers, the singleton `solo`), a `stop`
@@ -2690,5 +2820,39 @@ example : (validateExecute "set" (.obj [("name", .str "NoSuch"), ("options", .ob
     (.obj [("name", .str "NoSuch"), ("options", .obj [("numprocesses", .int 2)])]) exFree
     (unknownWatcher_of_not_key _ _ (by decide +kernel))
   exact C11_refusal_noop "set" (by decide +kernel) _ _ e (by rw [he]) hr
+
+/-- 9. `options` / `get` while the `stop` holds the slot: answered from the record of `B` (asked for as `b`) -/
+example : (validateExecute "options" (.obj [("name", .str "b")]) exBusy).1 = .ok (.value
+    "options=graceful_timeout:300;max_age:0;max_retry:5;numprocesses:2;on_demand:false;priority:0;respawn:true;send_hup:false;singleton:false;stop_children:false;stop_signal:15;warmup_delay:0") := by
+  rw [C11_options_reply _ _ "b" 2 rfl (by decide +kernel)]
+  have : optionsBody (getW 2 exBusy).1 =
+      "options=graceful_timeout:300;max_age:0;max_retry:5;numprocesses:2;on_demand:false;priority:0;respawn:true;send_hup:false;singleton:false;stop_children:false;stop_signal:15;warmup_delay:0" := by
+    decide +kernel
+  simp only [this]
+def C11.okBody : R ExecRes → Option String
+  | .ok (.value b) => some b
+  | _ => none
+example : validateExecute "get" (.obj [("name", .str "solo"), ("keys", .arr [.str "singleton", .str "cmd", .str "numprocesses"])])
+    exBusy = (getBody (getW 3 exBusy).1 (.arr [.str "singleton", .str "cmd", .str "numprocesses"]), exBusy) :=
+  C11_get_reply _ _ "solo" 3 _ rfl rfl (by decide +kernel)
+example : okBody (getBody (getW 3 exBusy).1 (.arr [.str "singleton", .str "cmd", .str "numprocesses"]))
+    = some "options=numprocesses:1;singleton:true" := by
+  decide +kernel
+example : validateExecute "get" (.obj [("name", .str "a"), ("keys", .arr [.str "numprocesses", .str "autostart"])]) exBusy
+    = (.error .message, exBusy) :=
+  C11_get_unknown_key_noop _ _ "a" 1 _ (.str "autostart") rfl rfl (by decide +kernel) (by simp) (by decide +kernel)
+example : (validateExecute "get" (.obj [("name", .str "a"), ("keys", .null)]) exFree).1 = .error (.other "TypeError") := by
+  rw [C11_get_reply _ _ "a" 1 _ rfl rfl (by decide +kernel)]
+  rfl
+example : sameDaemon exBusy (handleMessage (some "c1") (some (.obj [("id", .int 4), ("command", .str "get"),
+      ("properties", .obj [("name", .str "b"), ("keys", .arr [.str "nosuch"])])])) exBusy).2 :=
+  C11_message_readonly_options_only_replies _ _ _ "get" rfl (by decide +kernel)
+/-- the refusal of the `stop` above is followed by the same `options` answer -/
+example : validateExecute "options" (.obj [("name", .str "B")])
+      (validateExecute "stop" (.obj [("name", .str "B"), ("match", .str "simple")]) exBusy).2
+    = validateExecute "options" (.obj [("name", .str "B")]) exBusy :=
+  (C11_refusal_same_options "stop" (by decide +kernel) _ _ .conflict
+    (by rw [C11_conflict_start_stop_restart_simple "stop" (.inr (.inl rfl)) _ _ 2 (.inr (by decide +kernel))
+          ⟨"B", rfl, by decide +kernel⟩ rfl]) rfl _).1
 
 end Circus.Core
